@@ -5,7 +5,7 @@ CONSTANTS
   MaxModels = 2
   MaxGen = 3
   MaxPerGen = 1
-  MaxLinks = 3
+  MaxLinks = 2
   T = 3
   Emit = TRUE
 INVARIANTS LinkOrderIrrelevant
